@@ -52,11 +52,9 @@ elif name=='M11_move_ctor_keeps_raw':
 			row.mFreeRaws = nullptr;''','''			row.mFreeRaws = nullptr;''')
 elif name=='M12_row_gets_private_head':
     sub(tab,'return RowProxy(&GetColumnList(), raw, &mCrew.GetFreeRaws());','static FreeRaws other(nullptr);\n\t\treturn RowProxy(&GetColumnList(), raw, &other);')
-elif name in ('SA_link_not_refreshed_after_failed_cas','SB_relaxed_exchange'):
+elif name.startswith('S') and name[1] in 'ABCD' and name[2]=='_':
     import subprocess
-    pf='/tmp/seed-out/C19/%s/patch.diff' % ('a' if name.startswith('SA') else 'b')
-    pf2=os.path.join(os.path.dirname(os.path.abspath('/verif/props/C19/mutants.sh')),'seeded_%s.diff' % ('a' if name.startswith('SA') else 'b'))
-    src=pf if os.path.exists(pf) else pf2
+    src='/verif/props/C19/seeded_%s.diff' % name[1].lower()
     subprocess.run(['patch','-p1','-d',d,'-i',src],check=True)
 else:
     raise SystemExit('unknown mutant')
